@@ -377,6 +377,98 @@ func sessionsFor(r *rand.Rand, ev uint32, thoroughBulk bool) []SessionIn {
 	return out
 }
 
+// restartsFor: ONE stub of a type with a Configure method, played through 2–4 sessions whose
+// Configure answers form the given pattern. Every session is judged by the same
+// history-independent predicates as a single session.
+//
+//	z = 0 (all implemented)   s = a non-empty proper subset (fresh each time)   x = exactly the implemented set
+//	n = a subset NOT contained in the previous subset   u = superset (rejected)   d = disjoint (rejected)
+//	e = Configure returns an error
+func restartsFor(r *rand.Rand, ev uint32, patterns []string) []SessionIn {
+	var out []SessionIn
+	outside := allEv &^ ev
+	for _, pat := range patterns {
+		t := ev | 1<<13 | uint32(r.Intn(4))<<14
+		in := SessionIn{Kind: "restart", Type: t, Name: "r" + rstr(r, 5), Idx: fmt.Sprintf("%02d", r.Intn(100)), Reqs: []ReqIn{}}
+		var prev uint32
+		for _, c := range pat {
+			var m uint32
+			e := ""
+			switch c {
+			case 'z':
+				m = 0
+			case 's':
+				m = randSubsetOf(r, ev, true)
+				if m == ev && ev&(ev-1) != 0 { // make it proper when there is room
+					m &^= 1 << uint(bitsOf(ev)[r.Intn(len(bitsOf(ev)))])
+				}
+				prev = m
+			case 'x':
+				m = ev
+			case 'n':
+				rest := ev &^ prev
+				if rest == 0 {
+					m = ev
+				} else {
+					m = randSubsetOf(r, rest, true) | randSubsetOf(r, prev, false)
+				}
+				prev = m
+			case 'u':
+				x := randSubsetOf(r, outside, true)
+				if x == 0 {
+					x = 1 << uint(13+r.Intn(19))
+				}
+				m = ev | x
+			case 'd':
+				m = randSubsetOf(r, outside, true)
+				if m == 0 {
+					m = 1 << uint(13+r.Intn(19))
+				}
+			case 'e':
+				m = randSubsetOf(r, allEv, false)
+				e = "E:" + rstr(r, 10)
+			}
+			end := "stop"
+			if r.Intn(3) == 0 {
+				end = "close"
+			}
+			var reqs []ReqIn
+			// a few lifecycle events incl. ones outside the asked mask, sometimes a dangling More chunk
+			for _, b := range bitsOf(ev) {
+				if r.Intn(3) == 0 || len(reqs) == 0 {
+					reqs = append(reqs, requestFor(r, int32(b+1), false))
+				}
+			}
+			reqs = append(reqs, requestFor(r, int32(1+r.Intn(13)), false))
+			if len(reqs) > 5 {
+				r.Shuffle(len(reqs), func(i, j int) { reqs[i], reqs[j] = reqs[j], reqs[i] })
+				reqs = reqs[:5]
+			}
+			if r.Intn(3) == 0 {
+				reqs = append(reqs, syncReq(r, true, false))
+			}
+			if r.Intn(3) == 0 {
+				reqs = append(reqs, syncReq(r, false, false))
+			}
+			in.Sessions = append(in.Sessions, SessIn{Cfg: cfgIn(r, m, e), Reqs: reqs, End: end})
+		}
+		out = append(out, in)
+	}
+	return out
+}
+
+func bitsOf(m uint32) []int {
+	var bs []int
+	for b := 0; b < 32; b++ {
+		if m&(1<<uint(b)) != 0 {
+			bs = append(bs, b)
+		}
+	}
+	return bs
+}
+
+var restartPatterns = []string{"sz", "sn", "zs", "uz", "sxz", "dzs", "sez", "snz", "zsns", "sus", "ssz", "xsz", "ezs"}
+
 func genSessions(o *hx.Opts) []SessionIn {
 	r := o.Rand(15)
 	var out []SessionIn
@@ -406,6 +498,34 @@ func genSessions(o *hx.Opts) []SessionIn {
 		bulk := o.Thorough() && i%16 != 0 && ev != allEv && ev&(ev-1) != 0
 		out = append(out, sessionsFor(r, ev, bulk)...)
 	}
+	// restart stream: the same stub through several sessions
+	rr := o.Rand(1515)
+	for i, ev := range evs {
+		if ev == 0 {
+			continue
+		}
+		var pats []string
+		switch {
+		case ev == allEv || !o.Thorough() && i < 15:
+			pats = restartPatterns
+		case o.Thorough() && i%16 != 0:
+			pats = []string{restartPatterns[i%len(restartPatterns)], restartPatterns[(i/13+5)%len(restartPatterns)]}
+		default:
+			for k := 0; k < 4; k++ {
+				pats = append(pats, restartPatterns[rr.Intn(len(restartPatterns))])
+			}
+		}
+		out = append(out, restartsFor(rr, ev, pats)...)
+	}
+	// a type without a Configure method restarted: the answer is the implemented set each time
+	for k := 0; k < 8; k++ {
+		ev := rr.Uint32()&allEv | 1<<uint(rr.Intn(13))
+		in := SessionIn{Kind: "restart", Type: ev | uint32(rr.Intn(4))<<14, Name: "nocfg", Idx: "04", Reqs: []ReqIn{}}
+		for j := 0; j < 3; j++ {
+			in.Sessions = append(in.Sessions, SessIn{Cfg: cfgIn(rr, rr.Uint32(), ""), Reqs: shortReqs(rr, 2), End: []string{"stop", "close"}[rr.Intn(2)]})
+		}
+		out = append(out, in)
+	}
 	// the empty handler set with every combination of the event-less handlers
 	for a := uint32(0); a < 8; a++ {
 		out = append(out, SessionIn{Kind: "session", Type: a << 13, Name: "none", Idx: "00", Cfg: cfgIn(r, 0, ""), Reqs: shortReqs(r, 1)})
@@ -419,6 +539,14 @@ func genSessions(o *hx.Opts) []SessionIn {
 	for i := range out {
 		if out[i].Reqs == nil {
 			out[i].Reqs = []ReqIn{}
+		}
+		if out[i].Sessions == nil {
+			out[i].Sessions = []SessIn{}
+		}
+		for j := range out[i].Sessions {
+			if out[i].Sessions[j].Reqs == nil {
+				out[i].Sessions[j].Reqs = []ReqIn{}
+			}
 		}
 	}
 	return out
@@ -579,11 +707,19 @@ func Run(o *hx.Opts, w *lineio.Writer) error {
 			if err := json.Unmarshal(c.In, &in); err != nil {
 				return err
 			}
-			if in.Kind != "session" {
+			if in.Kind != "session" && in.Kind != "restart" {
 				return fmt.Errorf("unknown case kind %q", in.Kind)
 			}
 			if in.Reqs == nil {
 				in.Reqs = []ReqIn{}
+			}
+			if in.Sessions == nil {
+				in.Sessions = []SessIn{}
+			}
+			for j := range in.Sessions {
+				if in.Sessions[j].Reqs == nil {
+					in.Sessions[j].Reqs = []ReqIn{}
+				}
 			}
 			ins = append(ins, in)
 			ids = append(ids, c.ID)
@@ -591,7 +727,7 @@ func Run(o *hx.Opts, w *lineio.Writer) error {
 	} else {
 		ins = genSessions(o)
 		for i, in := range ins {
-			ids = append(ids, fmt.Sprintf("s%05d-t%04x", i, in.Type))
+			ids = append(ids, fmt.Sprintf("%s%05d-t%04x", in.Kind[:1], i, in.Type))
 		}
 	}
 	if len(ins) == 0 {
